@@ -24,7 +24,7 @@ func init() {
 			"nested arrays/maps, maps populated in DESCENDING canonical key order so that an encoder that stops sorting fails on every encode rather than one in n!) encoded K = 6 times, on an instrumented scratch copy in which every range-over-map loop of go-cose follows a permutation drawn from the tape (the schedule dimension the statement names); " +
 			"messages are signed through a recording signer and emitted. Oracle: all K encodings byte-equal (and equal across two OS processes at different GOMAXPROCS - the event logs of the determinism self-test carry every emitted byte); everything go-cose generated is deterministic CBOR (shortest heads, definite lengths, sorted unique keys, inside protected headers too); " +
 			"the protected bytes inside the recorded ToBeSigned are the protected bytes of the emitted message; closure - the corresponding decoder accepts every byte string an encoder or Sign helper returned and the decoded value re-encodes to the same bytes. " +
-			"Map iteration inside fxamacker/cbor and reflect cannot be owned; there the oracle is order-independent and the workload adversarial. Non-trivial = an object was encoded and judged; distinct = distinct (object kind, size class, spelling, outcome).",
+			"Map iteration inside fxamacker/cbor and reflect cannot be owned; there the oracle is order-independent and the workload adversarial. Held messages: a decoded message (60 % foreign, non-canonical raw buckets) is encoded, used read-only (Verify, countersignatures verified, Countersign0) and encoded again - same bytes, accepted by the decoder. Non-trivial = an object was encoded and judged; distinct = distinct (object kind, size class, spelling, outcome).",
 		Assumptions: []string{"header values stay inside the supported data model (ints within int64, no tags / big numbers)", "float width is not judged (the statement speaks of integers and lengths)"},
 		Real:        []string{"github.com/veraison/go-cose (instrumented copy: same statements, map ranges routed through the simulator)", "github.com/fxamacker/cbor/v2"},
 		Stubs:       []string{"map-iteration order of go-cose's own loops (tape)", "cose.Signer recording wrapper", "entropy source"},
